@@ -505,9 +505,14 @@ impl LdpcDecoder for SimDecoder {
                     Some((c, ambiguous)) => (c, if ambiguous { 2 } else { 1 }),
                     None => (llrs.iter().map(|&x| hard(x)).collect(), 0),
                 };
+                // with an outer-code threshold T a frame counts towards the error target only
+                // with more than T bit errors: flip T + 1 systematic bits then
+                let want_flips = (cfg.bch_max_errors as usize + 1).min(k);
                 let nflip = if flip && k > 0 {
-                    c[pos] ^= 1;
-                    1
+                    for d in 0..want_flips {
+                        c[(pos + d) % k] ^= 1;
+                    }
+                    want_flips as i64
                 } else {
                     0
                 };
